@@ -115,6 +115,20 @@ def run_budget(pid, tier, seed):
                       "where": rng.choice(["reqG", "reqH", "reqGH", "reqHG", "respG", "respH", "respGH", "respHG"])})
             extra.append(c)
         cases += extra
+        # a budget holds across a pause: responder-side budgets with the response paused (block hook) and resumed at block k;
+        # requestor-side budgets with the request paused and resumed once the network is quiet (a new incarnation of the request)
+        paused = []
+        for c in cases:
+            if c["n"] < 3 or rng.random() > (0.25 if tier == "quick" else 1.0):
+                continue
+            side = "resp" if c["where"].startswith("resp") else "req"
+            if 1 not in c["sr"]:
+                continue
+            for at in (1, 2):
+                pc = dict(c)
+                pc.update({"pauseSide": side, "pauseVia": "hook", "pauseAt": at, "resume": "quiet"})
+                paused.append(pc)
+        cases += paused
         obsfile = run_cases(cases, tmp, "budget")
         verdicts, ores = oracle(obsfile, "OracleBudget.cfg")
         if len(verdicts) != len(cases):
@@ -129,7 +143,7 @@ def run_budget(pid, tier, seed):
                 v.violation("%s:%s" % (side, kind), "budget %d (%s) on case %s: observation %s" % (c["budget"], c["where"], json.dumps(c), json.dumps(o)[:400]), rec)
         cov = {"states": res.distinct + ores.distinct, "transitions": res.distinct + ores.distinct, "traces_validated_against_impl": len(cases),
                "samples": [json.loads(lines[len(lines) // 2])], "exhaustive": True,
-               "cases_enumerated_by_tlc": len(cases) - len(extra), "cases_random": len(extra),
+               "cases_enumerated_by_tlc": len(cases) - len(extra) - len(paused), "cases_random": len(extra), "cases_with_pause_and_resume": len(paused),
                "rule": "every link tree with <= %d visits (plain depths) x requestor store {empty, full, full minus one} x responder store {full, full minus one} x budget 1..N+2 "
                        "x 8 placements (requestor/responder, global option / per-request hook / both with either smaller); judged by ExchangeOracle.tla C07OK" % (4 if tier == "quick" else 5)}
         return v.finish(cov, ["TLC", "a missing block still uses up one unit of go-ipld-prime's link budget: runs are accepted under either reading of 'blocks needed' (link visits / blocks loaded)"])
